@@ -78,6 +78,10 @@ def templates_of(fn):
     return out
 
 
+def types_of(fx):
+    return fx.file(TR)['types']
+
+
 def fresh_rule(chk, fx):
     """typestate over PyScriptGenerator's fresh-name counter: taken (read into a name) -> bumped, with nothing that can take another name in between"""
     from sa.kinds import callgraph as CG
@@ -189,9 +193,39 @@ def run(chk):
             v = a.get('v') or {}
             domain.append(v.get('char') or v.get('str'))
     domain = [d for d in domain if d]
+    loop_form = False
+    if not domain:
+        # single-pass form: `for c in s.chars() { match c { '\n' => out.push_str("\\n"), .., c => out.push(c) } }`
+        chk.rule('C17-utf8', 'escape_str walks the characters of the literal, not its UTF-8 bytes: a byte pushed back with `b as char` turns every non-ASCII character into two or three '
+                             'Latin-1 characters, so the script prints other text than the bytecode')
+        for m in T.walk(esc['body']):
+            if m.get('k') == 'Match' and m.get('src') == 'Normal':
+                lits = []
+                for arm in m['arms']:
+                    for q in T.walk(arm['pat']):
+                        if q.get('k') == 'PLit' and isinstance(q.get('v'), dict):
+                            if 'char' in q['v']:
+                                lits.append(q['v']['char'])
+                            elif 'int' in q['v'] and 0 <= q['v']['int'] < 128:
+                                lits.append(chr(q['v']['int']))
+                            elif 'byte' in q['v'] and 0 <= q['v']['byte'] < 128:
+                                lits.append(chr(q['v']['byte']))
+                            elif 'bytes' in q['v'] and len(q['v']['bytes']) == 1:
+                                lits.append(chr(q['v']['bytes'][0]))
+                if len(lits) >= 3:
+                    domain = lits
+                    loop_form = True
+        if loop_form:
+            over_bytes = any(c.get('k') == 'MCall' and c['n'] in ('bytes', 'as_bytes', 'into_bytes') for c in T.calls(esc['body']))
+            casts = [n for n in T.walk(esc['body']) if n.get('k') == 'Cast' and types_of(fx)[n['ty']] == 'char' and types_of(fx)[n['from']] == 'u8']
+            if over_bytes and casts:
+                chk.bad('C17-utf8', 'PyScriptGenerator::escape_str', 'byte-as-char', 'escape_str iterates the bytes of the literal and pushes `%s`: "é" (0xC3 0xA9) comes out as "Ã©" in the '
+                        'transpiled script' % T.show(casts[0])[:30], TR, casts[0].get('l'))
+            else:
+                chk.ok('C17-utf8', 'chars')
     chk.floor('escape_str replacements', len(domain), 3)
     # method chains are nested receiver-first: the innermost receiver is applied first; T.calls yields outermost first
-    order_applied = list(reversed(domain))
+    order_applied = list(reversed(domain)) if not loop_form else ['\\'] + domain      # a single pass cannot double an escape
     for ch, why in UNSAFE.items():
         inst = repr(ch)
         if ch not in produced and '\x01' not in produced:
